@@ -609,7 +609,9 @@ class Connection(object):
         return data
 
     def _handle_close(self):  # request handler
-        self._cleanup()
+        # a close request served while close() itself is under way (flag set, before_closed hook or root request
+        # being served) leaves the cleanup to that close(): it must run once
+        self._cleanup(_anyway=False)
 
     def _handle_getroot(self):  # request handler
         return self._local_root
